@@ -24,10 +24,15 @@ def oracle(h):
     fails = []
     tables = h.init["tables"]
     nodes = json.dumps(h.init.get("nodes"), sort_keys=True)
+    # what the clients were TOLD: a token is created by an answered CreateSession, activated by an ActivateSession that
+    # was answered Good, and gone after an answered CloseSession (the server's own flags are not trusted here)
+    known, active = set(), set()
     for e in h.evs:
         ev, o = e["ev"], e["out"]
-        active = {sc.tokkey(s["Token"]) for s in (tables.get("sessions") or []) if s["Activated"]}
-        known = {sc.tokkey(s["Token"]) for s in (tables.get("sessions") or [])}
+        hooks_active = {sc.tokkey(s["Token"]) for s in (tables.get("sessions") or []) if s["Activated"]}
+        if hooks_active - active:
+            fails.append(("activated-without-successful-activation", "the session table marks token(s) %s activated although no ActivateSession "
+                          "with that token was answered Good" % sorted(hooks_active - active), e))
         after_nodes = json.dumps(e.get("nodes"), sort_keys=True)
         if gated(ev) and ev["tok"] not in active:
             want = sc.ST["BadSessionNotActivated"] if ev["tok"] in known else sc.ST["BadSessionIDInvalid"]
@@ -40,6 +45,14 @@ def oracle(h):
                 fails.append(("effect-without-session/" + ev["kind"], "%s request without an activated session changed the server's state" % ev["kind"], e))
         if ev["kind"] in ("activate", "closesession") and ev["tok"] not in known and o["k"] != "fault":
             fails.append(("session-service-unknown-token", "%s with an unknown token answered %s" % (ev["kind"], o["k"]), e))
+        if ev["kind"] == "createsession" and o["k"] == "createsession":
+            known.add(o["tok"])
+            active.discard(o["tok"])
+        if ev["kind"] == "activate" and o["k"] == "activate":
+            active.add(ev["tok"])
+        if ev["kind"] == "closesession" and o["k"] == "close":
+            known.discard(ev["tok"])
+            active.discard(ev["tok"])
         tables = e["tables"]
         if e.get("nodes") is not None:
             nodes = after_nodes
